@@ -52,6 +52,34 @@ def closed_interval_sites(repo, rep, rule):
 ROUND_POINTS = [0.0, 0.25, 0.5, 0.75, 1.0, 1.5, 2.5, 3.5, 4.5, 1073741824.5, 1073741825.5]
 
 
+def numeric_externs():
+    """Models of the scalar numeric primitives the repo's arithmetic helpers are built from (math / numpy spellings), for
+    concrete-number interpretation; anything applied to a non-number stays Unknown."""
+    import math
+
+    from ..absint import Unknown
+
+    def lift(fn):
+        def ext(interp, args, kwargs, node):
+            if len(args) != 1 or not isinstance(args[0], (int, float)) or kwargs:
+                return Unknown("numeric-primitive(?)")
+            r = fn(args[0])
+            return r if isinstance(r, tuple) else float(r)
+        return ext
+
+    half_even = lift(lambda x: round(x))
+    externs = {
+        "np.trunc": lift(math.trunc), "math.trunc": lift(math.trunc), "np.fix": lift(math.trunc),
+        "np.floor": lift(math.floor), "math.floor": lift(math.floor), "np.ceil": lift(math.ceil), "math.ceil": lift(math.ceil),
+        "np.round": half_even, "np.rint": half_even, "np.around": half_even,
+        "np.sign": lift(lambda x: (x > 0) - (x < 0)), "np.abs": lift(abs), "np.fabs": lift(abs), "math.fabs": lift(abs),
+        "np.float64": lift(float), "np.double": lift(float), "np.float32": lift(float),
+        "np.log2": lift(math.log2), "math.log2": lift(math.log2), "math.frexp": lift(math.frexp), "np.frexp": lift(math.frexp),
+    }
+    externs.update({"numpy." + k[3:]: v for k, v in externs.items() if k.startswith("np.")})
+    return externs
+
+
 def round_half_away(repo, rep, rule):
     """numeric_util.round_away_zero is the single rounding primitive behind quantise_scale, the LUT generators and
     quantise_float32. Its rounding mode is a property of the function's shape: it touches its argument only through
@@ -66,22 +94,9 @@ def round_half_away(repo, rep, rule):
     nu = repo.mod("numeric_util")
     site = "ethosu/vela/numeric_util.py:round_away_zero"
 
-    def lift(fn):
-        def ext(interp, args, kwargs, node):
-            if len(args) != 1 or not isinstance(args[0], (int, float)) or kwargs:
-                return Unknown("rounding-primitive(?)")
-            return float(fn(args[0]))
-        return ext
-
-    half_even = lift(lambda x: round(x))
-    externs = {
-        "np.trunc": lift(math.trunc), "numpy.trunc": lift(math.trunc), "math.trunc": lift(math.trunc), "np.fix": lift(math.trunc),
-        "np.floor": lift(math.floor), "math.floor": lift(math.floor), "np.ceil": lift(math.ceil), "math.ceil": lift(math.ceil),
-        "np.round": half_even, "np.rint": half_even, "np.around": half_even, "round": half_even,
-        "np.sign": lift(lambda x: (x > 0) - (x < 0)), "np.abs": lift(abs), "np.fabs": lift(abs), "math.fabs": lift(abs), "abs": lift(abs),
-        "int": lift(int), "float": lift(float), "np.float64": lift(float), "np.double": lift(float),
-    }
-    externs.update({"numpy." + k[3:]: v for k, v in externs.items() if k.startswith("np.")})
+    externs = numeric_externs()
+    lift = lambda fn: (lambda interp, args, kwargs, node: float(fn(args[0])) if len(args) == 1 and isinstance(args[0], (int, float)) and not kwargs else Unknown("rounding-primitive(?)"))  # noqa: E731
+    externs.update({"round": lift(round), "abs": lift(abs), "int": lift(int), "float": lift(float)})
     it = Interp(repo, nu, externs=externs)
     wrong = []
     n = 0
